@@ -14,6 +14,7 @@ Line-protocol driver for the C14 models (model files only).  One JSON value per 
   ["modign", [[line, tag|null]…], firstStmtLine|null, firstDecoratorLine|null]
         → {"whole": bool, "err": [line, [codes]]|null, "ignores": [[line, [codes]]…], "invalid": [line…]}
           (visit_Module's type_ignores + the module-level-ignore rule of translate_stmt_list / get_lineno)
+  ["skip", [[line, endLine]…]]  → [line…]     (skipped_lines of unreachable blocks, visit_block)
   ["space", [codepoint…]]     → [bool…]                           (str.isspace as used by strip / \s)
   ["elide", name]             → bool                              (argument_elide_name)
   ["pos", line, col|null, endLine|null, endCol|null] → [line, col, endLine, endCol]   (Errors.report clamp)
@@ -79,6 +80,9 @@ def step (line : String) : String :=
           ("err", match r.errCodes with | none => Json.null | some p => showIgn p),
           ("ignores", Json.arr (r.ignores.map showIgn).toArray),
           ("invalid", Json.arr (bad.map fun (l : Nat) => Json.num (l : Int)).toArray)]
+      | "skip" => Json.arr ((skippedLines ((jArr (nth a 1)).map fun e =>
+          let x := jArr e; ({ line := jNat (nth x 0), endLine := jNat (nth x 1) } : BlockSpan))).map
+            fun (l : Nat) => Json.num (l : Int)).toArray
       | "space" => Json.arr ((jArr (nth a 1)).map fun n => Json.bool (isSpace (Char.ofNat (jNat n)))).toArray
       | "elide" => Json.bool (elideName (jChars (nth a 1)))
       | "pos" =>
